@@ -111,6 +111,9 @@ func genC03(r *rng, tier string, emit func(string)) {
 	}
 	for i := 0; i < n; i++ {
 		p := P()
+		if i%4 == 1 { // the opposite point: same x (also -G, -[2]G, -[3]G)
+			p = neg(p)
+		}
 		emit(fmt.Sprintf("ecsmul %s %s %s", bhex(p[0]), bhex(p[1]), hx(r.biasedScalar())))
 		emit(fmt.Sprintf("ecbase %s", hx(r.biasedScalar())))
 	}
@@ -120,6 +123,9 @@ func genC03(r *rng, tier string, emit func(string)) {
 		k := r.biasedScalar()
 		switch i % 4 {
 		case 0:
+			if i%12 == 4 {
+				p = neg(p)
+			}
 			emit(fmt.Sprintf("mecsmul %s %s %s", bhex(p[0]), bhex(p[1]), hx(k)))
 		case 1:
 			emit(fmt.Sprintf("mecbase %s", hx(k)))
